@@ -770,12 +770,8 @@ func customDenies(s *sut, r *request) bool {
 		}
 	}
 	known := func(n string) bool {
-		for _, k := range s.providers {
-			if strings.TrimPrefix(k, "http:") == n {
-				return true
-			}
-		}
-		return false
+		_, _, ok := s.providerTarget(n)
+		return ok
 	}
 	for i := range s.policies {
 		p := &s.policies[i]
@@ -790,10 +786,89 @@ func customDenies(s *sut, r *request) bool {
 	return false
 }
 
+// envoyStatus: the codes of envoy.type.v3.StatusCode.
+var envoyStatus = map[int64]bool{}
+
+func init() {
+	for _, c := range []int64{0, 100, 200, 201, 202, 203, 204, 205, 206, 207, 208, 226, 300, 301, 302, 303, 304, 305, 307, 308,
+		400, 401, 402, 403, 404, 405, 406, 407, 408, 409, 410, 411, 412, 413, 414, 415, 416, 417, 421, 422, 423, 424, 426, 428, 429, 431,
+		500, 501, 502, 503, 504, 505, 506, 507, 508, 510, 511} {
+		envoyStatus[c] = true
+	}
+}
+
+// providerTarget: where the authorizer of the named provider lives according to the mesh config (label kind:cluster),
+// whether it is of the HTTP kind, and whether the provider is usable at all: exactly one entry with that name, a
+// DNS-label name, port in [1, 65535], a service the registry resolves (<ns>/<host>, or a host living in ONE
+// namespace), a status on error that is an HTTP status Envoy knows, a path prefix (HTTP kind) starting with '/'.
+func (s *sut) providerTarget(n string) (label string, http, ok bool) {
+	var p *provSpec
+	count := 0
+	for i := range s.providers {
+		if s.providers[i].name == n {
+			p = &s.providers[i]
+			count++
+		}
+	}
+	if count != 1 || n == "" || len(n) > 63 || strings.HasPrefix(n, "-") || strings.HasSuffix(n, "-") {
+		return "", false, false
+	}
+	for _, c := range n {
+		if !(c >= 'a' && c <= 'z' || c >= '0' && c <= '9' || c == '-') {
+			return "", false, false
+		}
+	}
+	if p.port < 1 || p.port > 65535 {
+		return "", false, false
+	}
+	hostname := ""
+	if q := strings.Split(p.service, "/"); len(q) == 2 {
+		for _, e := range registry {
+			if e[0] == q[1] && e[1] == q[0] {
+				hostname = q[1]
+			}
+		}
+	} else {
+		k := 0
+		for _, e := range registry {
+			if e[0] == p.service {
+				k++
+			}
+		}
+		if k == 1 {
+			hostname = p.service
+		}
+	}
+	if hostname == "" {
+		return "", false, false
+	}
+	if p.status != "" {
+		c, err := strconv.ParseInt(p.status, 10, 32)
+		if err != nil || !envoyStatus[c] || c == 0 { // 0 = the enum's Empty placeholder, which Envoy rejects (fix 2aba4fa)
+			return "", false, false
+		}
+	}
+	if p.http && p.pathPrefix != "" && !strings.HasPrefix(p.pathPrefix, "/") {
+		return "", false, false
+	}
+	kind := "grpc"
+	if p.http {
+		kind = "http"
+	}
+	return fmt.Sprintf("%s:outbound|%d||%s", kind, p.port, hostname), p.http, true
+}
+
 // customAsks: the extension providers whose authorizer the request has to be sent to (sorted): the CUSTOM
 // policies are not in the fail-closed mode, the provider is defined and usable on this kind of chain (an
 // HTTP-type provider cannot serve a network filter chain), and an enforced CUSTOM policy naming it matches.
 func customAsks(s *sut, r *request) []string {
+	labels, _ := customAsksBy(s, r)
+	return labels
+}
+
+// customAsksBy: ... the targets (labels) and the provider names.
+func customAsksBy(s *sut, r *request) ([]string, []string) {
+	var outNames []string
 	specBundle = s.bundle
 	specTCP = s.forTCP
 	provs := map[string]bool{}
@@ -804,15 +879,11 @@ func customAsks(s *sut, r *request) []string {
 		}
 	}
 	if len(provs) > 1 && !s.multi {
-		return nil
+		return nil, nil
 	}
 	usable := func(n string) bool {
-		for _, k := range s.providers {
-			if k == n || (k == "http:"+n && !s.shapeTCP) {
-				return true
-			}
-		}
-		return false
+		_, http, ok := s.providerTarget(n)
+		return ok && !(http && s.shapeTCP)
 	}
 	names := make([]string, 0, len(provs))
 	for n := range provs {
@@ -846,17 +917,20 @@ func customAsks(s *sut, r *request) []string {
 				}
 			}
 		}
+		label, _, _ := s.providerTarget(n)
 		switch {
 		case own != "":
-			out = append(out, n)
+			out = append(out, label)
+			outNames = append(outNames, n)
 			stale = own
 		case isLoose("xprov", n) && strings.HasPrefix(stale, "istio-ext-authz-"+n):
 			// today: the enabling matcher is a PREFIX match on the stored policy id, which another provider's
 			// policy id satisfies when this provider's name continues into it (`x` / `x-ns`)
-			out = append(out, n)
+			out = append(out, label)
+			outNames = append(outNames, n)
 		}
 	}
-	return out
+	return out, outNames
 }
 
 // isDryRun: the policy carries istio.io/dry-run with a value that reads as true (1, t, T, TRUE, true, True).
